@@ -52,8 +52,6 @@ def decOp : List String → Option Op
   | ["sr", r] => (decRecv r).map .scriptRecv
   | ["die"] => some .ircDie
   | ["loop"] => some .loop
-  | ["send"] => some .sendIfMsgs
-  | ["read"] => some .read
   | _ => none
 
 def drive (s : DState) (fs : List String) : DState × String :=
